@@ -6,6 +6,8 @@ import (
 	"fmt"
 	"os"
 	"path/filepath"
+	"runtime"
+	"runtime/debug"
 	"sort"
 	"strings"
 	"sync/atomic"
@@ -21,6 +23,9 @@ type W struct {
 	bw    *bufio.Writer
 	Path  string
 	Lines int
+	// LastOp is the last request line ("OP ...") written: the request a stream was executing when an
+	// oracle fired or the library panicked.
+	LastOp string
 }
 
 func NewW(path string) *W {
@@ -35,6 +40,9 @@ func NewW(path string) *W {
 }
 
 func (w *W) L(format string, args ...any) {
+	if strings.HasPrefix(format, "OP ") {
+		w.LastOp = fmt.Sprintf(format, args...)
+	}
 	fmt.Fprintf(w.bw, format, args...)
 	w.bw.WriteByte('\n')
 	w.Lines++
@@ -51,6 +59,37 @@ var (
 )
 
 func progress() { lastProgress.Store(time.Now().UnixNano()) }
+
+// CurrentStats is the Stats object the running stream created last (nil before the first one).
+func CurrentStats() *Stats { return curStats.Load() }
+
+// CurrentTracePos flushes the trace being written and returns its path and the number of lines written.
+func CurrentTracePos() (string, int) {
+	w := curW.Load()
+	if w == nil {
+		return "", 0
+	}
+	w.bw.Flush()
+	return w.Path, w.Lines
+}
+
+// PanicFrames renders the innermost n frames of the panicking goroutine (called from a deferred function).
+func PanicFrames(n int) string {
+	pc := make([]uintptr, 64)
+	k := runtime.Callers(3, pc)
+	frames := runtime.CallersFrames(pc[:k])
+	var out []string
+	for len(out) < n {
+		f, more := frames.Next()
+		if !strings.HasPrefix(f.Function, "runtime.") {
+			out = append(out, fmt.Sprintf("%s (%s:%d)", f.Function, filepath.Base(f.File), f.Line))
+		}
+		if !more {
+			break
+		}
+	}
+	return strings.Join(out, " <- ")
+}
 
 // StartWatchdog makes the process report a violation and exit when the stream makes no progress
 // for `limit`: the library did not return from a call (or crawls).  The violation carries the trace
@@ -91,6 +130,74 @@ func StartWatchdog(limit time.Duration) {
 	}()
 }
 
+// Guarded runs one stream.  A panic that escapes from it while the LIBRARY was executing (the innermost
+// frame that is not the Go runtime's or a third-party package's belongs to atree, not to the harness)
+// is a verdict about the tree, like a call that never returns: the stream's statistics are returned with
+// a violation of property "*" that names the request being executed and the trace position, so the
+// replay file shows the history up to the call that panicked (sweep s2: mutants AS2, AS5, MSV1 killed the
+// harness process, and `./check` could only say "could not be completed").  A panic raised by the
+// harness's own code (also inside a callback the library called) is a harness error.
+func Guarded(fn func() *Stats) (st *Stats) {
+	defer func() {
+		r := recover()
+		if r == nil {
+			return
+		}
+		stack := string(debug.Stack())
+		st = curStats.Load()
+		if st == nil {
+			st = NewStats("?", 0)
+		}
+		frame, lib := panicOrigin(stack)
+		msg := fmt.Sprintf("%v", r)
+		if i := strings.IndexByte(msg, '\n'); i >= 0 {
+			msg = msg[:i]
+		}
+		if !lib {
+			st.HarnessErr = fmt.Sprintf("harness panic in %s: %s", frame, msg)
+			return
+		}
+		v := Violation{Property: "*", Stream: st.Stream, Seed: st.Seed, Program: st.Programs,
+			What: fmt.Sprintf("the library panicked in %s: %s", frame, msg)}
+		if w := curW.Load(); w != nil {
+			if w.LastOp != "" {
+				v.What += fmt.Sprintf(" (while executing request %q)", w.LastOp)
+			}
+			v.Trace, v.Line = w.Path, w.Lines
+		}
+		st.Violations = append(st.Violations, v)
+	}()
+	return fn()
+}
+
+// panicOrigin finds, in a stack dump taken inside a deferred function while panicking, the innermost
+// frame below the panic that belongs to the library or to the harness.
+func panicOrigin(stack string) (frame string, library bool) {
+	lines := strings.Split(stack, "\n")
+	start := 0
+	for i, l := range lines {
+		if strings.HasPrefix(l, "panic(") {
+			start = i + 1 // (the last one: a re-panic shows several)
+		}
+	}
+	for _, l := range lines[start:] {
+		if l == "" || l[0] == '\t' || l[0] == ' ' {
+			continue // file:line of the frame above
+		}
+		fn := l
+		if i := strings.LastIndexByte(fn, '('); i > 0 {
+			fn = fn[:i]
+		}
+		switch {
+		case strings.HasPrefix(fn, "github.com/onflow/atree"):
+			return fn, true
+		case strings.HasPrefix(fn, "main.") || strings.HasPrefix(fn, "verifharness/"):
+			return fn, false
+		}
+	}
+	return "?", false
+}
+
 // cpuTime is the CPU time (user + system) this process has consumed.
 func cpuTime() time.Duration {
 	var ru syscall.Rusage
@@ -101,9 +208,16 @@ func cpuTime() time.Duration {
 }
 
 func (w *W) Close() {
-	w.bw.Flush()
-	w.f.Close()
+	if err := w.bw.Flush(); err != nil {
+		ioError.Store("writing " + w.Path + ": " + err.Error())
+	}
+	if err := w.f.Close(); err != nil {
+		ioError.Store("closing " + w.Path + ": " + err.Error())
+	}
 }
+
+// ioError records a failed trace write (disk full ...): the run is then a TOOL failure, not a verdict.
+var ioError atomic.Value
 
 // Violation is a property violation found on the IMPLEMENTATION by a model-free oracle.
 type Violation struct {
@@ -132,6 +246,7 @@ type Stats struct {
 	Violations []Violation    `json:"violations"`
 	Known      []Violation    `json:"known_findings"`
 	HarnessErr string         `json:"harness_error,omitempty"`
+	IOErr      string         `json:"io_error,omitempty"` // a trace could not be written completely (disk full): tool failure
 	Exhaustive bool           `json:"exhaustive,omitempty"`
 }
 
@@ -145,6 +260,10 @@ func NewStats(stream string, seed int64) *Stats {
 func (s *Stats) Hit(tag string) { s.Dist[tag]++; progress() }
 
 func (s *Stats) Emit() {
+	if e, _ := ioError.Load().(string); e != "" {
+		s.IOErr = e
+	}
+	drainRegFindings(s)
 	b, _ := json.Marshal(s)
 	fmt.Println("STATS " + string(b))
 }
